@@ -107,7 +107,7 @@ def gen_cases(rng, tier):
                       "suffix": k, "closing": "x"})
     # ---- template rotation
     r = rng.fork("tmpl")
-    nt = {"quick": 60, "thorough": 1200, "search": 300}[tier]
+    nt = {"quick": 150, "thorough": 6000, "search": 300}[tier]
     exts = [".records.gz", ".records.gz", ".records", "", ".json", ".v1.records"]
     for _ in range(nt):
         ext = r.choice(exts)
@@ -137,7 +137,7 @@ def gen_cases(rng, tier):
                                  ["A", 1704067200]]})
     # ---- raw concatenation with several descriptors
     r = rng.fork("frames")
-    for _ in range({"quick": 40, "thorough": 600, "search": 150}[tier]):
+    for _ in range({"quick": 80, "thorough": 3000, "search": 150}[tier]):
         parts = [[[r.below(3), r.randint(0, 99)] for _ in range(r.choice([0, 1, 2, 3, 5]))]
                  for _ in range(r.randint(1, 4))]
         cases.append({"kind": "frames", "parts": parts, "gz": bool(r.chance(30))})
